@@ -483,6 +483,9 @@ pub fn run(cfg: &Cfg, out: &mut Out) {
         tails.dedup();
         let mut zs: Vec<usize> = (0..=48).collect();
         zs.extend([65usize, 130]);
+        if huge() {
+            zs.extend([256usize, 1025]);
+        }
         for t in &tails {
             for &z in &zs {
                 let zeros = "0".repeat(z);
